@@ -711,15 +711,16 @@ func (rr *RunningBucketResults) AddEvalResultsForRange(runningStats *[]runningSt
 func (rr *RunningBucketResults) AddEvalResultsForCount(runningStats *[]runningStats, measureResults []sutils.CValueEnclosure, i int, usedByTimechart bool, cnt uint64, fieldToValue map[string]sutils.CValueEnclosure) (int, error) {
 	var err error
 	if rr.currStats[i].ValueColRequest == nil {
-		if usedByTimechart {
-			eVal := &sutils.CValueEnclosure{
-				Dtype: sutils.SS_DT_UNSIGNED_NUM,
-				CVal:  cnt,
-			}
-			return 0, rr.ProcessReduce(runningStats, *eVal, i)
-		} else {
-			return 0, rr.ProcessReduce(runningStats, measureResults[i], i)
+		// count(<field>) counts only the records that have a value for the field
+		if rr.currStats[i].MeasureCol != "*" &&
+			(measureResults[i].Dtype == sutils.SS_DT_BACKFILL || measureResults[i].Dtype == sutils.SS_INVALID) {
+			cnt = 0
 		}
+		eVal := &sutils.CValueEnclosure{
+			Dtype: sutils.SS_DT_UNSIGNED_NUM,
+			CVal:  cnt,
+		}
+		return 0, rr.ProcessReduce(runningStats, *eVal, i)
 	}
 
 	boolResult := true
